@@ -1,7 +1,9 @@
 package an
 
 import (
+	"fmt"
 	"go/ast"
+	"regexp"
 	"go/token"
 	"go/types"
 
@@ -533,6 +535,16 @@ func (g *Graph) storeEffect(n ast.Node, st map[types.Object]ast.Expr) {
 		} else if len(s.Rhs) == 1 && len(s.Lhs) == 2 && (s.Tok == token.ASSIGN || s.Tok == token.DEFINE) && isCommaOk(s.Rhs[0]) {
 			set(s.Lhs[0], s.Rhs[0])
 			set(s.Lhs[1], &ast.CallExpr{Fun: ast.NewIdent("ok"), Args: []ast.Expr{s.Rhs[0]}})
+		} else if len(s.Rhs) == 1 && (s.Tok == token.ASSIGN || s.Tok == token.DEFINE) {
+			if _, isCall := Unparen(s.Rhs[0]).(*ast.CallExpr); isCall {
+				for i := range s.Lhs {
+					set(s.Lhs[i], &ast.CallExpr{Fun: ast.NewIdent(fmt.Sprintf("tuple#%d", i)), Args: []ast.Expr{s.Rhs[0]}})
+				}
+			} else {
+				for i := range s.Lhs {
+					set(s.Lhs[i], nil)
+				}
+			}
 		} else {
 			for i := range s.Lhs {
 				set(s.Lhs[i], nil)
@@ -551,7 +563,7 @@ func (g *Graph) storeEffect(n ast.Node, st map[types.Object]ast.Expr) {
 						continue
 					}
 				}
-				set(nm, nil)
+				set(nm, ast.NewIdent("zero"))
 			} else {
 				set(nm, nil)
 			}
@@ -655,11 +667,27 @@ type Binder struct {
 	// Bool: canonical boolean expression -> atom name with domain T/F
 	Bool map[string]string
 	Row  Row
+	// Re: regular-expression rewrites applied to canonical strings after Roles (e.g. to abstract call arguments).
+	Re []ReRole
 	// Unknown collects the canonical text of leaves that were not recognised.
 	Unknown map[string]bool
 }
 
-func (b *Binder) C(e ast.Expr, st Store) string { return b.Roles.Apply(b.Fn.CanonSt(e, st)) }
+func (b *Binder) C(e ast.Expr, st Store) string {
+	s := b.Roles.Apply(b.Fn.CanonSt(e, st))
+	for _, r := range b.Re {
+		s = r.Re.ReplaceAllString(s, r.To)
+	}
+	return s
+}
+
+// ReRole is a regular-expression rewrite of canonical strings.
+type ReRole struct {
+	Re *regexp.Regexp
+	To string
+}
+
+func RE(pattern, to string) ReRole { return ReRole{regexp.MustCompile(pattern), to} }
 
 func (b *Binder) Leaf(e ast.Expr, st Store) Tri {
 	e = Unparen(e)
@@ -678,9 +706,9 @@ func (b *Binder) Leaf(e ast.Expr, st Store) Tri {
 			} else if a, ok := b.Eq[y+"|"+x]; ok {
 				v = FromBool(b.Row[a] == "T")
 			} else if a, ok := b.Enum[x]; ok && b.Fn.ConstName(be.Y) != "" {
-				v = FromBool(b.Row[a] == y)
+				v = FromBool(b.Row[a] == b.Fn.ConstName(be.Y))
 			} else if a, ok := b.Enum[y]; ok && b.Fn.ConstName(be.X) != "" {
-				v = FromBool(b.Row[a] == x)
+				v = FromBool(b.Row[a] == b.Fn.ConstName(be.X))
 			}
 			if v != U {
 				if be.Op == token.NEQ {
